@@ -77,7 +77,7 @@ def run_scenario(sc):
 
             _r.seed(5 + k + sc.get("rng_salt", 0))
         obj = mc if mc is not None else client.ModelClient()
-        r = run_impl.run_case(case, client_obj=obj, want_client=True, base_frame=frame, feed_frame=feed_frame)
+        r = run_impl.run_case(case, client_obj=obj, want_client=True, base_frame=frame, feed_frame=feed_frame, defaults=sc.get("defaults"))
         last = r
     res = {"ok": last["ok"], "exc": last["exc"]}
     if last["ok"]:
